@@ -272,9 +272,15 @@ func (g *scGen) stmt(d int, inFunc bool) []*scStmt {
 		}
 	case 6: // define a function (closure over the current scope) and call it with 0..3 arguments
 		if d > 0 {
-			np := r.Intn(3)
+			np := r.Intn(4)
 			body := g.stmts(d-1, true)
 			body = append(body, stRet(g.numExpr(1)))
+			// what the call frame holds for every parameter (supplied, defaulted or missing) is shown first
+			var shown []*scStmt
+			for i := 0; i < np; i++ {
+				shown = append(shown, stMark(exVar([]string{"p", "q", "a"}[i%3])))
+			}
+			body = append(shown, body...)
 			f := g.newFunc(np, body)
 			fn := ex("fn")
 			fn.F = f
